@@ -48,16 +48,44 @@ def holdback_stage(chk, tier, seed):
     os.remove(cf)
     chk.ob("forced schedules: harness exits normally", rc == 0, err[-300:])
     g = C.group_lines(out)
-    ndiff = nsolves = 0
+    ndiff = nsolves = nnoise = 0
+
+    def deviating(lines):
+        """the runs k >= 1 whose outcome differs from the undisturbed solve `hold 0`"""
+        res = {}
+        for l in lines:
+            f = l.split()
+            if f[0] == "hold" and len(f) >= 4 and f[2] != "error":
+                res[int(f[1])] = (f[2], f[3])
+        return {k for k, v in res.items() if k >= 1 and 0 in res and v != res[0]}, res
+
     for cid, (inp, hold) in meta.items():
         lines = g.get(cid, [])
-        diffs = [l for l in lines if l.startswith("hold ") and l.endswith("same false")]
         nsolves += sum(1 for l in lines if l.startswith("hold "))
-        if diffs or not any(l == "end" for l in lines):
+        dev, res = deviating(lines)
+        odd = any(l.endswith("same false") for l in lines) or "end" not in lines
+        if not odd:
+            continue
+        # the lingering closes the known end-of-cycle window (finding C13-barrier) almost always, not always: a deviation counts
+        # only if the SAME held-back run deviates from the undisturbed solve again in two more executions
+        confirmed = set(dev)
+        for rep in range(2):
+            if not confirmed:
+                break
+            cf2 = os.path.join(C.BUILD, "c13_hold_confirm.case")
+            C.write_cases(cf2, [("r", GF.case_lines(inp, opts, {"iterations": 1})[:2] + [hold])])
+            _, out2, _ = C.run([C.HARNESS, "holdback", cf2], timeout=600, env=C.GOENV)
+            os.remove(cf2)
+            dev2, _ = deviating(C.group_lines(out2).get("r", []))
+            confirmed &= dev2
+        if confirmed:
             ndiff += 1
-            chk.violation({"kind": "holdback", "what": "deterministic parallel mode: holding back one worker goroutine changes the final solution "
-                           "(end-of-cycle window kept closed): %s vs %s" % (lines[:1], (diffs or lines[-1:])[:1]),
+            chk.violation({"kind": "holdback", "what": "deterministic parallel mode: holding back the worker goroutine of run %s changes the final "
+                           "solution in three executions out of three (end-of-cycle window kept closed)" % sorted(confirmed),
                            "input": inp, "options": opts, "hold": hold, "lines": lines[:8]})
+        else:
+            nnoise += 1
+    chk.ev.cov["holdback_unconfirmed_deviations"] = nnoise
     chk.ob("deterministic mode under forced schedules: %d inputs x 6 solves (one worker held back by 300 ms each) end with the same solution"
            % n, ndiff == 0)
     return n
